@@ -539,6 +539,9 @@ var c23Codecs = []c23Codec{
 	{"G711", func() format.Format { return &format.G711{PayloadTyp: 0, MULaw: true, SampleRate: 8000, ChannelCount: 1} },
 		func(rng *rand.Rand, max int) unit.Payload { return unit.PayloadG711(vmon.RandBytes(rng, c23Size(rng, max))) },
 		func(p unit.Payload) [][]byte { return [][]byte{p.(unit.PayloadG711)} }, "bytes"},
+	{"G711x2", func() format.Format { return &format.G711{PayloadTyp: 96, MULaw: false, SampleRate: 16000, ChannelCount: 2} },
+		func(rng *rand.Rand, max int) unit.Payload { return unit.PayloadG711(vmon.RandBytes(rng, 2*(1+c23Size(rng, max)/2))) },
+		func(p unit.Payload) [][]byte { return [][]byte{p.(unit.PayloadG711)} }, "bytes"},
 	{"LPCM", func() format.Format { return &format.LPCM{PayloadTyp: 96, BitDepth: 16, SampleRate: 48000, ChannelCount: 2} },
 		func(rng *rand.Rand, max int) unit.Payload { return unit.PayloadLPCM(vmon.RandBytes(rng, 4*(1+c23Size(rng, max)/4))) },
 		func(p unit.Payload) [][]byte { return [][]byte{p.(unit.PayloadLPCM)} }, "bytes"},
@@ -601,6 +604,7 @@ func TestVerifC23(t *testing.T) {
 				r.Sample(map[string]any{"codec": c.name, "max_payload": max, "unit_bytes": total, "packets": len(pkts), "largest_packet_payload": c23Largest(pkts)})
 			}
 			bad := false
+			precBytes := 0
 			for pi, p := range pkts {
 				if len(p.Payload) > max {
 					if c.name == "Opus" {
@@ -619,7 +623,24 @@ func TestVerifC23(t *testing.T) {
 				if !haveOffset {
 					offset, haveOffset = off, true
 				}
-				if off != offset && (pi == 0 || (c.name != "Opus" && c.name != "AC3" && c.name != "MPEG4Audio" && c.name != "G711" && c.name != "LPCM")) {
+				if fs := c23SampleFrame(f); fs != 0 {
+					// sample-based audio: every packet holds whole sample frames and its timestamp is the
+					// unit's timestamp plus the sample frames that precede it in the unit
+					if len(p.Payload)%fs != 0 {
+						r.Violation("sample-frame-cut:"+c.name, fmt.Sprintf("%s unit #%d packet %d/%d: %d payload bytes is not a whole number of %d-byte sample frames", c.name, k, pi, len(pkts), len(p.Payload), fs), nil)
+						bad = true
+					}
+					if want := offset + uint32(precBytes/fs); haveOffset && off != want {
+						r.Violation("timestamp-offset:"+c.name, fmt.Sprintf("%s unit #%d packet %d/%d: timestamp-PTS = %d, expected fixed offset %d + %d sample frames preceding in the unit", c.name, k, pi, len(pkts), off, offset, precBytes/fs), map[string]any{"codec": c.name, "max": max, "unit_bytes": total})
+						bad = true
+					}
+					precBytes += len(p.Payload)
+					if pi > 0 {
+						r.Count("sample_audio_later_packets_judged", 1)
+					}
+					continue
+				}
+				if off != offset && (pi == 0 || (c.name != "Opus" && c.name != "AC3" && c.name != "MPEG4Audio")) {
 					r.Violation("timestamp-offset:"+c.name, fmt.Sprintf("%s unit #%d packet %d: timestamp-PTS = %d, earlier units used %d", c.name, k, pi, off, offset), nil)
 					bad = true
 				}
@@ -666,6 +687,17 @@ func TestVerifC23(t *testing.T) {
 	}
 	r.Finish("per sequence a real Stream with a non-RTP publisher (the server generates the RTP packets) for H264, H265, VP8, MPEG-4 Video, Opus, MPEG-4 Audio, G711, LPCM, AC-3, maximum payload sizes 200..1460; payload sizes around k*max, many small frames (aggregation), frames > 64 KiB; after every unit: every packet payload <= max, sequence numbers consecutive across units, timestamp-PTS constant per format, and the packets fed to a fresh depacketizer give back the delivered payload. non-trivial = unit larger than the maximum payload",
 		"Opus packets cannot be fragmented in RTP: an Opus packet larger than the maximum is counted, not judged; audio codecs whose later packets of one unit advance the timestamp by the samples they carry are judged on the first packet; MJPEG, MPEG-1 audio/video, VP9, KLV and AV1 RTP are not generated (they need bit-exact codec headers); depacketizing uses the repository's rtpDecoder wrappers around gortsplib")
+}
+
+// c23SampleFrame returns the size of one sample frame (all channels) for sample-based audio, 0 otherwise.
+func c23SampleFrame(f format.Format) int {
+	switch f := f.(type) {
+	case *format.G711:
+		return f.ChannelCount
+	case *format.LPCM:
+		return f.BitDepth / 8 * f.ChannelCount
+	}
+	return 0
 }
 
 func c23Largest(pkts []*rtp.Packet) int {
